@@ -242,7 +242,8 @@ impl<'a> Gen<'a> {
             let pkid = if qos == 0 { 0 } else { self.pkid(i) };
             self.seq += 1;
             let retain = self.p.retained && self.rng.chance(1, 3);
-            let payload = if retain && self.rng.chance(1, 4) { String::new() } else { format!("m{}", self.seq) };
+            // empty payloads: mostly on retained publishes (clearing), sometimes on ordinary ones
+            let payload = if self.rng.chance(1, if retain { 4 } else { 12 }) { String::new() } else { format!("m{}", self.seq) };
             let t = if self.rng.chance(1, 6) { rand_topic(&mut self.rng) } else { topic.clone() };
             let (alias, props) = if self.p.v5 && self.rng.chance(1, 4) { (format!("{}", self.rng.range(1, 3)), 1) } else { ("-".to_string(), if self.p.v5 && self.rng.chance(1, 5) { 1 } else { 0 }) };
             self.push(i, format!("pub {qos} {pkid} {} 0 {} {} {alias} - {props}", retain as u8, hex(t.as_bytes()), hex(payload.as_bytes())));
